@@ -302,6 +302,30 @@ def gen(rng, tier):
     cases.append(c[:16])
     cases.append(c[16:])
 
+    # --- Expect: 100-continue with every interesting Content-Length
+    c = []
+    for cl in [b"0", b"5", b"3", b"127999999", b"128000000", b"128000001", b"99999999999", b"9223372036854775807", b"9223372036854775808",
+               b"-1", b"abc", b"", b" 7", b"+5"]:
+        for ex in [b"100-continue", b"100-Continue", b"100-continue ", b"100-continue\x00x", b"200-ok"]:
+            s = b"POST /e HTTP/1.1\r\nExpect: " + ex + b"\r\nContent-Length: " + cl + b"\r\n\r\nhello"
+            c.append("req " + hexs(s))
+            st["req_mutated"] += 1
+    c.append("srv " + hexs(b"POST /e HTTP/1.1\r\nExpect: 100-continue\r\nContent-Length: 5\r\n\r\nhelloGET /n HTTP/1.1\r\n\r\n"))
+    c.append("srv " + hexs(b"POST /e HTTP/1.1\r\nExpect: 100-continue\r\nContent-Length: 128000000\r\n\r\nhello"))
+    st["srv_streams"] += 2
+    cases.append(c)
+
+    # --- chunked bodies with odd chunk-size lines
+    c = []
+    for sz in [b"-1", b"-5", b"ffffffff", b"fffffffb", b"80000000", b"7fffffff", b"100000000", b"100000005", b"0x5", b"0X5", b" 5", b"+5",
+               b"5;ext=1", b"", b"g", b"00000005", b"ffffffffffffffffffff", b"-ffffffffffffffffffff", b"5 ", b"\t5", b"5\x00", b"0x", b"0xg"]:
+        for pre in [b"", b"3\r\nabc\r\n"]:
+            s = b"POST /c HTTP/1.1\r\nTransfer-Encoding: chunked\r\n\r\n" + pre + sz + b"\r\nhello\r\n0\r\n\r\nGET /n HTTP/1.1\r\n\r\n"
+            c.append("req " + hexs(s))
+            c.append("req " + hexs(s.replace(b"Transfer-Encoding: chunked", b"Transfer-Encoding: chunked\r\nContent-Length: 6")))
+            st["req_mutated"] += 2
+    cases.append(c)
+
     # --- B. server loop: pipelined requests
     nsrv = 80 if quick else 800
     for i in range(nsrv):
@@ -610,9 +634,53 @@ def _ref_request(s):
     return rec, pos
 
 
+def _ref_serve(s):
+    """(records, response bytes, unread) for a stream made of strictly well-formed, dispatched requests, else None"""
+    if any(len(l) > 16000 for l in s.split(b"\n")[:256]):
+        return None
+    pos = 0
+    recs = []
+    out = b""
+    while pos < len(s):
+        r = _ref_request(s[pos:])
+        if r is None:
+            return None
+        rec, used = r
+        m = re.match(rb"^(\S+) \S+ (HTTP/1\.[01])\r\n", s[pos:])
+        method, proto = m.group(1), m.group(2)
+        if method == b"OPTIONS" or " p=0:- " in rec:
+            return None
+        hm = re.search(rb"(?im)^connection: ([^\r\n]*)\r$", s[pos:pos + used].split(b"\r\n\r\n")[0] + b"\r")
+        hconn = hm.group(1) if hm else b""
+        if any(c >= 0x80 for c in hconn):
+            return None
+        hconn = hconn.lower()
+        recs.append(rec)
+        pos += used
+        out += proto + b" 200 OK\r\n" + (b"Connection: keep-alive\r\n" if hconn == b"keep-alive" else b"") + b"Content-Length: 2\r\n\r\nok"
+        if (proto == b"HTTP/1.0" and hconn != b"keep-alive") or hconn == b"close":
+            break
+    return recs, out, len(s) - pos
+
+
 def reference(line):
     t = line.split()
     try:
+        if t[0] == "srv" and len(t) == 2:
+            r = _ref_serve(unhex(t[1]))
+            if r is None:
+                return None
+            recs, out, rest = r
+            return "n=%d%s | err=0 closed=0 out=%s rest=%d" % (len(recs), "".join(" [%s]" % x for x in recs), adler_rep(out), rest)
+        if t[0] == "tcp" and len(t) >= 2:
+            outs = []
+            for h in t[1:]:
+                r = _ref_serve(unhex(h))
+                if r is None:
+                    return None
+                recs, out, rest = r
+                outs.append("n=%d%s | out=%s" % (len(recs), "".join(" [%s]" % x for x in recs), adler_rep(out)))
+            return " || ".join(outs)
         if t[0] == "req" and len(t) == 2:
             s = unhex(t[1])
             if any(len(l) > 16000 for l in s.split(b"\n")[:64]):
@@ -676,6 +744,57 @@ def oracle(case, impl, model, crash):
             return True, "a well-formed request/target/URL was not handed over as sent (independent reference disagrees)"
     return False, ("implementation and model differ on a malformed stream in a way the property does not constrain; "
                    "the model no longer describes the code, so the theorems no longer apply to it")
+
+
+PREDICATES = [(" dd=1", "the decoded request path handed to the application contains '..'"),
+              ("leak", "the file server answered with bytes of a file outside its root"),
+              (" ci=0", "header lookup is not case-insensitive"),
+              ("SLOW(", "reading/dispatch of the stream was not prompt"),
+              ("negative-length", "a string/array of negative length was produced")]
+
+
+def extra(ctx):
+    """targeted search, only when the correspondence pass saw a failure: judge the property's predicates on the
+    implementation alone over the whole generated set, so that a regression is reported with a concrete failing input
+    (the shrinker of the generic pass keeps *any* divergence, not necessarily one that breaks the property)"""
+    import random
+    from concurrent.futures import ThreadPoolExecutor
+    from lib import core
+    from lib.engine import Failure, corpus_cases
+    st = ctx["stats"]
+    if st.get("validated", 0) >= st.get("evaluations", 0):
+        return []
+    rng = random.Random(ctx["seed"] * 1000003 + int(ID[1:]))
+    lines = [l for c in corpus_cases(ID) + gen(rng, ctx["tier"]) for l in c if l.split()[0] in ("req", "tg", "srv", "file")]
+    nb = max(1, min(core.NCPU, len(lines) // 2000 or 1))
+    size = (len(lines) + nb - 1) // nb
+    chunks = [lines[i:i + size] for i in range(0, len(lines), size)]
+    found = []
+
+    def run(ch):
+        impl, crash, err = core.run_impl(ctx["exe"], ch, timeout=600)
+        out = []
+        for l, o in zip(ch, impl):
+            for pat, clause in PREDICATES:
+                if pat in o:
+                    out.append((len(l), l, o, clause))
+                    break
+        return out
+    with ThreadPoolExecutor(max_workers=nb) as ex:
+        for r in ex.map(run, chunks):
+            found.extend(r)
+    found.sort()
+    fails = []
+    seen = set()
+    for n, l, o, clause in found:
+        if clause in seen:
+            continue
+        seen.add(clause)
+        f = Failure("diverge", [l], ["case", o], ["case", "(property predicate)"], clause=clause,
+                    name="property oracle judged on the implementation alone (targeted search over the generated set)")
+        fails.append(f)
+    st["targeted_search_lines"] = len(lines)
+    return fails[:3]
 
 
 def simplify_line(line):
